@@ -51,7 +51,7 @@ pub const SLOT_IN: usize = 2;
 pub const SLOT_WAIT: usize = 3;
 
 pub enum Req {
-    Begin { drv: Drv, exe: String, sock: String },
+    Begin { drv: Drv, exe: String, sock: String, keep_out: bool },
     /// poll the read future of stdout (`SLOT_OUT`) / stderr (`SLOT_ERR`), creating it first if none
     Read { slot: usize, chunk: usize, managed: bool },
     /// poll the write future, creating it with `data` if none is in flight
@@ -59,6 +59,7 @@ pub enum Req {
     /// is a write in flight?
     CloseIn,
     WaitPoll,
+    OutputPoll,
     Harvest { expect: [bool; 4], watchdog: Duration },
     End,
     Quit,
@@ -81,6 +82,7 @@ pub enum Resp {
     /// CloseIn: true = closed now, false = a write is in flight (nothing done)
     Closed(bool),
     Wait { started: bool, res: Option<Result<ExitStatus, String>> },
+    Output { res: Option<Result<(ExitStatus, Vec<u8>, Vec<u8>), String>> },
     Harvest { rounds: u32, woken: [bool; 4], timed_out: bool, unsettled: bool },
     Ended,
 }
@@ -109,6 +111,7 @@ struct Exec {
     err_fut: Option<ReadFut<ChildStderr>>,
     in_fut: Option<Pin<Box<dyn Future<Output = (ChildStdin, Result<usize, String>)>>>>,
     wait_fut: Option<Pin<Box<dyn Future<Output = io::Result<ExitStatus>>>>>,
+    output_fut: Option<Pin<Box<dyn Future<Output = io::Result<std::process::Output>>>>>,
     wait_done: bool,
     counters: [Arc<CountWaker>; 4],
     wakers: [Waker; 4],
@@ -142,14 +145,13 @@ where
 }
 
 impl Exec {
-    fn begin(drv: Drv, exe: &str, sock: &str) -> Result<(Exec, u32, [i32; 3]), String> {
+    fn begin(drv: Drv, exe: &str, sock: &str, keep_out: bool) -> Result<(Exec, u32, [i32; 3]), String> {
         let mut pb = ProactorBuilder::new();
         pb.driver_type(match drv {
             Drv::IoUring => DriverType::IoUring,
             Drv::Poll => DriverType::Poll,
         });
         pb.capacity(64);
-        pb.thread_pool_recv_timeout(Duration::from_millis(200));
         let rt = Runtime::builder()
             .with_proactor(pb)
             .build()
@@ -173,13 +175,12 @@ impl Exec {
             .map_err(|e| format!("spawn: {e}"))?;
         let pid = child.id();
         let stdin = child.stdin.take();
-        let stdout = child.stdout.take();
-        let stderr = child.stderr.take();
         let fds = [
             stdin.as_ref().map(|h| h.as_raw_fd()).unwrap_or(-1),
-            stdout.as_ref().map(|h| h.as_raw_fd()).unwrap_or(-1),
-            stderr.as_ref().map(|h| h.as_raw_fd()).unwrap_or(-1),
+            child.stdout.as_ref().map(|h| h.as_raw_fd()).unwrap_or(-1),
+            child.stderr.as_ref().map(|h| h.as_raw_fd()).unwrap_or(-1),
         ];
+        let (stdout, stderr) = if keep_out { (None, None) } else { (child.stdout.take(), child.stderr.take()) };
         let counters: [Arc<CountWaker>; 4] = std::array::from_fn(|_| Arc::new(CountWaker(AtomicU64::new(0))));
         let wakers: [Waker; 4] = std::array::from_fn(|i| Waker::from(counters[i].clone()));
         Ok((
@@ -193,6 +194,7 @@ impl Exec {
                 err_fut: None,
                 in_fut: None,
                 wait_fut: None,
+                output_fut: None,
                 wait_done: false,
                 counters,
                 wakers,
@@ -310,6 +312,29 @@ impl Exec {
         })
     }
 
+    fn output_poll(&mut self) -> Resp {
+        if self.wait_done {
+            return Resp::Output { res: None };
+        }
+        let rt = self.rt.clone();
+        rt.enter(|| {
+            self.mark_polled(SLOT_WAIT);
+            if self.output_fut.is_none() {
+                let child = self.child.take().expect("child handle");
+                self.output_fut = Some(Box::pin(child.wait_with_output()));
+            }
+            let mut cx = Context::from_waker(&self.wakers[SLOT_WAIT]);
+            match self.output_fut.as_mut().unwrap().as_mut().poll(&mut cx) {
+                Poll::Pending => Resp::Output { res: None },
+                Poll::Ready(r) => {
+                    self.output_fut = None;
+                    self.wait_done = true;
+                    Resp::Output { res: Some(r.map(|o| (o.status, o.stdout, o.stderr)).map_err(|e| e.to_string())) }
+                }
+            }
+        })
+    }
+
     fn woken(&self) -> [bool; 4] {
         std::array::from_fn(|i| self.count(i) > self.seen[i])
     }
@@ -346,7 +371,7 @@ impl Exec {
                     self.out_fut.is_some(),
                     self.err_fut.is_some(),
                     self.in_fut.is_some(),
-                    self.wait_fut.is_some(),
+                    self.wait_fut.is_some() || self.output_fut.is_some(),
                 ];
                 let missing = (0..4).any(|i| expect[i] && has[i] && !w[i]);
                 if !missing {
@@ -375,6 +400,7 @@ impl Exec {
             self.err_fut = None;
             self.in_fut = None;
             self.wait_fut = None;
+            self.output_fut = None;
             self.stdin = None;
             self.stdout = None;
             self.stderr = None;
@@ -400,11 +426,11 @@ pub fn subject_main(rx: Receiver<Req>, tx: Sender<Resp>) {
     let mut ex: Option<Exec> = None;
     while let Ok(req) = rx.recv() {
         let resp = match req {
-            Req::Begin { drv, exe, sock } => {
+            Req::Begin { drv, exe, sock, keep_out } => {
                 if let Some(e) = ex.take() {
                     e.end();
                 }
-                match vcore::catch(|| Exec::begin(drv, &exe, &sock)) {
+                match vcore::catch(|| Exec::begin(drv, &exe, &sock, keep_out)) {
                     Ok(Ok((e, pid, fds))) => {
                         ex = Some(e);
                         Resp::Began { pid, fds, tid }
@@ -434,6 +460,7 @@ pub fn subject_main(rx: Receiver<Req>, tx: Sender<Resp>) {
                     Req::Write { data } => e.write(data),
                     Req::CloseIn => e.close_in(),
                     Req::WaitPoll => e.wait_poll(),
+                    Req::OutputPoll => e.output_poll(),
                     Req::Harvest { expect, watchdog } => e.harvest(expect, watchdog),
                     _ => unreachable!(),
                 });
